@@ -280,6 +280,8 @@ def server_main():
             return r
 
         store.sync_individual, store.sync_all = sync_individual, sync_all
+        if sc.get("reset_counter"):
+            Individual.counter = 0          # a new interpreter that numbers its individuals from 0 again: ids collide with the rows
         crash = req["crash"]
         CTL["crash_at"] = crash["k"] if crash["kind"] == "boundary" else None
         CTL["obj_crash"] = crash["k"] if crash["kind"] == "objective" else None
@@ -386,7 +388,12 @@ def server_main():
                 os.remove(req["db"] + suffix)
             except OSError:
                 pass
+        pre_evs = []
+        if req["scenario"].get("pre"):       # an earlier, completed session of another process on the same file
+            pre_evs, _, _ = in_child(writer, dict(req, scenario=req["scenario"]["pre"], crash={"kind": "none"}), {"kind": "none"})
+            pre_evs.append({"e": "reopen"})
         evs, status, lived = in_child(writer, req, req["crash"])
+        evs = pre_evs + evs
         rd, _, _ = in_child(reader, req)
         sys.stdout.write(json.dumps({"events": evs, "status": status, "read": rd[0] if rd else {"error": "reader died"},
                                      "writer_s": lived}) + "\n")
@@ -458,9 +465,12 @@ def run(ctx):
         for e in evs:
             k = e.get("e")
             if k == "start":
-                designs.append((e["i"], e["v"]))
                 started[e["i"]] = e["v"]
+                trace.append("SNew %s %s" % (zl(e["i"]), enc_list(e["v"])))
                 trace.append("SStart %s" % zl(e["i"]))
+            elif k == "reopen":
+                trace.append("SReopen")
+                begun, done_commit = [], set()
             elif k == "costs":
                 obj.append((started[e["i"]], e["c"]))
                 trace.append("SCosts %s" % zl(e["i"]))
@@ -525,7 +535,7 @@ def run(ctx):
                     ok_costs = ok_signed = False
                 if not ok_costs:
                     fail("row %d: costs %r do not belong to its vector %r" % (iid, costs, vec), sc, crash, "costs match vector", id=iid)
-                if not ok_signed or state not in ("evaluated", "empty"):
+                if not ok_signed or state not in (("evaluated", "empty", None) if sc.get("pre") else ("evaluated", "empty")):
                     fail("row %d holds a partially written individual: state %r, signed costs %r, costs %r" % (iid, state, signed, costs),
                          sc, crash, "partial row", id=iid)
             hist["rows_read"] += len(ids)
@@ -566,6 +576,10 @@ def run(ctx):
                  ({"alg": "sweep1", "n": 3, "seed": 12, "procs": 1}, "all"),
                  ({"alg": "nsga2", "n": 4, "g": 2, "seed": 13, "procs": 1}, ctx.pick(40, "all")),
                  ({"alg": "epsmoea", "n": 3, "g": 1, "seed": 14, "procs": 1}, ctx.pick(30, "all")),
+                 ({"alg": "sweep", "n": 3, "seed": 17, "procs": 1, "reset_counter": True,
+                   "pre": {"alg": "sweep", "n": 3, "seed": 18, "procs": 1}}, "all"),
+                 ({"alg": "nsga2", "n": 3, "g": 2, "seed": 19, "procs": 1,
+                   "pre": {"alg": "sweep", "n": 4, "seed": 20, "procs": 1}}, ctx.pick(20, "all")),
                  ({"alg": "sweep", "n": 8, "seed": 15, "procs": 2, "jitter": 0.002}, ctx.pick(20, 60)),
                  ({"alg": "nsga2", "n": 4, "g": 2, "seed": 16, "procs": 2, "jitter": 0.002}, ctx.pick(8, 40))]
     if ctx.thorough:
@@ -585,7 +599,9 @@ def run(ctx):
             if not any(e.get("e") == "finished" for e in evs):
                 ctx.mismatches.append({"what": "reference run did not finish", "correspondence": "writer", "case": sc, "events": evs[-5:]})
                 continue
-            if sc["procs"] == 1:
+            if "pre" in sc:
+                evs = evs[max(j for j, e in enumerate(evs) if e.get("e") == "reopen") + 1:]      # crash points of the second session
+            elif sc["procs"] == 1:
                 shape_check(sc, evs)
             nb, no = count_points(evs)
             points = [{"kind": "boundary", "k": j} for j in range(nb)] + [{"kind": "objective", "k": j} for j in range(no)]
@@ -621,7 +637,7 @@ def run(ctx):
             meta.append(mt)
             if not exact and mt["rows"] is not None and len(mt["in_flight_connections"]) > 0:
                 hist["rows_in_flight_observed"] += 1
-            ctx.count((sc["alg"], sc["n"], sc.get("g"), sc["procs"], crash["kind"], crash.get("k"), len(evs), tuple(mt["rows"] or ())),
+            ctx.count((sc["alg"], sc["n"], sc.get("g"), sc["procs"], "pre" in sc, crash["kind"], crash.get("k"), len(evs), tuple(mt["rows"] or ())),
                       nontrivial=crash["kind"] != "none")
             if sc["alg"] == "sweep1" and crash["kind"] == "boundary" and crash["k"] in (1, 2):
                 ctx.sample({"case": mt, "events": evs})
